@@ -76,12 +76,11 @@ var payloads = map[string]payload{
 	"TagUpdateUserPayedFees":        {tag: event.TagUpdateUserPayedFees, typ: reflect.TypeOf(event.UserAggregate{}), idField: "UserID", spec: sc1("PayedFees")},
 	// not merged by addition in the table (overwrite middleware), but the handler adds the penalties to the
 	// delegate pools: exercised with the same oracle
-	"TagStakePoolPenalty": {tag: event.TagStakePoolPenalty, typ: reflect.TypeOf(dbs.StakePoolReward{}), idField: "ID", spec: []genField{{"DelegatePenalties", "map"}}, pointer: true,
+	"TagStakePoolPenalty": {tag: event.TagStakePoolPenalty, typ: reflect.TypeOf(dbs.StakePoolReward{}), idField: "ID", spec: rewardSpec, pointer: true,
 		index: func(id string) string { return spenum.ChallengeSlashPenalty.String() + id },
 		init: func(v reflect.Value, id string) {
 			v.FieldByName("Type").Set(reflect.ValueOf(spenum.Blobber))
 			v.FieldByName("RewardType").Set(reflect.ValueOf(spenum.ChallengeSlashPenalty))
-			v.FieldByName("DelegateRewards").Set(reflect.MakeMap(v.FieldByName("DelegateRewards").Type()))
 		}},
 }
 
